@@ -17,7 +17,7 @@ type GenOpts struct {
 	LongComments bool
 }
 
-var labelPool = []string{"l0", "loop", "done", "next", "L4", "skip_5", "a", "zz_end", "", ".loc", "twelve_chars", "thirteen_char", "a_label_name_wider_than_any_listing_column"} // the empty string is a label name like any other
+var labelPool = []string{"l0", "loop", "done", "next", "L4", "skip_5", "a", "zz_end", "", ".loc", "twelve_chars", "thirteen_char", "a_label_name_wider_than_any_listing_column", "a:", "exit:", "l0 "} // the empty string is a label name like any other
 
 var dataLens = []int{0, 1, 2, 15, 16, 17, 31, 32, 33, 47, 48, 49, 64, 65, 80}
 
@@ -157,7 +157,12 @@ func GenHistory(t *rapid.T, o GenOpts) []Op {
 			if rapid.IntRange(0, 15).Draw(t, "big-block") == 7 {
 				ln = rapid.SampledFrom([]int{255, 256, 257, 260, 300, 511, 512, 1000}).Draw(t, "dlen-big") // lengths that do not fit a byte
 			}
-			add(Op{Kind: "data", V: uint32(ln), Seed: rapid.Uint32().Draw(t, "dseed")})
+			dop := Op{Kind: "data", V: uint32(ln), Seed: rapid.Uint32().Draw(t, "dseed")}
+			if ln >= 32 && rapid.IntRange(0, 3).Draw(t, "periodic-data") == 0 {
+				// a table of equal records: rows of the listing repeat, shifted or not
+				dop.Period = rapid.SampledFrom([]int{1, 2, 3, 8, 15, 16, 17, 31, 32, 33}).Draw(t, "period")
+			}
+			add(dop)
 		case o.Comments && k < 48:
 			var txt string
 			if o.LongComments && rapid.IntRange(0, 3).Draw(t, "long-comment") == 0 {
